@@ -147,12 +147,15 @@ Theorem C12_series_sort_index_refines : forall s asc,
 Proof. exact code_series_sort_index_refines. Qed.
 Print Assumptions C12_series_sort_index_refines.
 
-(* Series.sort_values: correct exactly when the key result has the Series' length (not checked by the code) *)
+(* Series.sort_values, for EVERY key function result: sorted by it when it has the Series' length,
+   RuntimeError otherwise (no guard on the key result; the first hypothesis says the Series is well formed) *)
 Theorem C12_series_sort_values_refines : forall s keyres asc,
+  length (os_values (ss_obs s)) = length (os_index (ss_obs s)) ->
   let v := match keyres with Some c => hd [] (cfs_keys c) | None => os_values (ss_obs s) end in
-  length v = length (os_index (ss_obs s)) ->
   hier_ok (ss_idepth s) (os_index (ss_obs s)) (S_order [v] (length (os_index (ss_obs s))) asc) = true ->
-  M_series_sort_values code_params s keyres asc = Ok (S_series_sort (ss_obs s) [v] asc).
+  M_series_sort_values code_params s keyres asc =
+  if (length v =? length (os_index (ss_obs s)))%nat then Ok (S_series_sort (ss_obs s) [v] asc)
+  else Err "RuntimeError".
 Proof. exact code_series_sort_values_refines. Qed.
 Print Assumptions C12_series_sort_values_refines.
 
